@@ -217,6 +217,28 @@ pub fn dispatch(f: &[&str]) -> String {
             let d: Result<lettre::address::Envelope, _> = serde_json::from_str(&js);
             format!("{}\t{}", r.map(|e| e.to().len().to_string()).unwrap_or_else(|_| "err".into()), d.map(|e| e.to().len().to_string()).unwrap_or_else(|_| "err".into()))
         }
+        "envelope.headers" => {
+            // Envelope::try_from(&Headers) and the message builder with To / Cc / Bcc each absent (-), an empty list (0) or k mailboxes:
+            // "ok <n>" / "err", twice (headers path, builder path)
+            use lettre::message::{header, Mailboxes};
+            let mk = |spec: &str, tag: &str| -> Option<Mailboxes> {
+                if spec == "-" { return None; }
+                let n: usize = spec.parse().unwrap();
+                let mut m = Mailboxes::new();
+                for i in 0..n { m.push(format!("{tag}{i}@example.com").parse().unwrap()); }
+                Some(m)
+            };
+            let (to, cc, bcc) = (mk(f[1], "t"), mk(f[2], "c"), mk(f[3], "b"));
+            let mut h = header::Headers::new();
+            h.set(header::From::from("f@example.com".parse::<Mailboxes>().unwrap()));
+            let mut b = lettre::Message::builder().from("f@example.com".parse().unwrap());
+            if let Some(m) = to { h.set(header::To::from(m.clone())); b = b.mailbox(header::To::from(m)); }
+            if let Some(m) = cc { h.set(header::Cc::from(m.clone())); b = b.mailbox(header::Cc::from(m)); }
+            if let Some(m) = bcc { h.set(header::Bcc::from(m.clone())); b = b.mailbox(header::Bcc::from(m)); }
+            let r1 = lettre::address::Envelope::try_from(&h).map(|e| e.to().len().to_string()).unwrap_or_else(|_| "err".into());
+            let r2 = b.body(String::from("x")).map(|m| m.envelope().to().len().to_string()).unwrap_or_else(|_| "err".into());
+            format!("{r1}\t{r2}")
+        }
         "alnum.check" => {
             // H_alnum: every alphanumeric char is an ASCII letter/digit or >= U+00AA
             for c in 0u32..=0x10FFFF {
